@@ -15,6 +15,8 @@ use crate::prng::Rng;
 use crate::verdict::{guarded, Ctx};
 
 pub struct MergeCase {
+    /// all sources are one and the same file read through handles sharing one position
+    pub shared_position: bool,
     pub sources: Vec<(WCfg, Vec<Entry>)>,
     pub kind: MergeKind,
     pub pattern: &'static str,
@@ -27,7 +29,7 @@ pub fn gen_case(rng: &mut Rng) -> MergeCase {
         1 => 1,
         2 | 3 => 2,
         4 | 5 => 3,
-        _ => rng.range(2, 8),
+        _ => rng.range(2, 10),
     };
     let universe = *rng.pick(&[1usize, 3, 8, 30, 200, 600]);
     let long_keys = rng.chance(1, 4);
@@ -92,7 +94,16 @@ pub fn gen_case(rng: &mut Rng) -> MergeCase {
         sources.push((cfg, entries));
     }
     let kind = *rng.pick(&[MergeKind::Inject, MergeKind::Inject, MergeKind::Concat, MergeKind::First, MergeKind::Last]);
-    MergeCase { sources, kind, pattern, path: rng.below(4000) }
+    // self-merge: the same file k times, through handles that share one file position (like
+    // several readers over one &File)
+    let shared_position = pattern == "identical" && k >= 2 && rng.chance(1, 2);
+    if shared_position {
+        let first = sources[0].clone();
+        for s in sources.iter_mut() {
+            *s = first.clone();
+        }
+    }
+    MergeCase { shared_position, sources, kind, pattern, path: rng.below(4000) }
 }
 
 /// The offline checker over the merge-call log.
@@ -203,10 +214,16 @@ fn check_case(ctx: &Ctx, stream: &str, idx: u64, case: &MergeCase, rng: &mut Rng
     }
     let mf = MonMerge::new(case.kind);
     let log = mf.log.clone();
-    let make_merger = |mf: MonMerge| -> Result<grenad::Merger<Cursor<&[u8]>, MonMerge>, String> {
+    if case.shared_position {
+        ctx.count("self_merges_over_a_shared_position_source", 1);
+    }
+    let make_merger = |mf: MonMerge| -> Result<grenad::Merger<super::c03::Src<'_>, MonMerge>, String> {
         let mut cursors = Vec::new();
+        let first: &[u8] = files.first().map(|b| &b[..]).unwrap_or(&[]);
+        let shared = super::c03::Src::new(first, true);
         for b in &files {
-            cursors.push(Reader::new(Cursor::new(&b[..])).and_then(|r| r.into_cursor()).map_err(|e| format!("open source: {}", e))?);
+            let src = if case.shared_position { shared.clone() } else { super::c03::Src::new(&b[..], false) };
+            cursors.push(Reader::new(src).and_then(|r| r.into_cursor()).map_err(|e| format!("open source: {}", e))?);
         }
         let mut b = if case.path % 2 == 0 { MergerBuilder::new(mf) } else { grenad::Merger::builder(mf) };
         match case.path % 4 {
